@@ -8,8 +8,9 @@ wt, name = sys.argv[1:3]
 ALL = ['C%02d' % i for i in range(1, 21)]
 def sh(c): return subprocess.run(c, shell=True, stdout=subprocess.PIPE, stderr=subprocess.STDOUT).stdout.decode()
 d = os.path.join(VERIF, 'seeded', 'refactors', name); os.makedirs(d, exist_ok=True)
-for f in ('patch.diff', 'notes.md'):
-    shutil.copy(os.path.join(wt, 'refactor', f), os.path.join(d, f))
+if wt != '-':    # '-' : re-evaluate the patch already filed under seeded/refactors/<name>/
+    for f in ('patch.diff', 'notes.md'):
+        shutil.copy(os.path.join(wt, 'refactor', f), os.path.join(d, f))
 res = sh('sh %s/vlib/mutlab.sh try %s/patch.diff %s' % (VERIF, d, ' '.join(ALL)))
 quiet = []; broken = []; alarms = []
 for c in ALL:
@@ -23,4 +24,4 @@ json.dump(dict(kind='behaviour-preserving refactoring (sub-agent)', quiet=quiet,
                failing_input_reported=alarms, verif_commit=sh('git -C %s rev-parse --short HEAD' % VERIF).strip()),
           open(os.path.join(d, 'meta.json'), 'w'), indent=1)
 print(name, 'quiet', len(quiet), 'broken', [b.split(' ')[0] for b in broken], 'ALARMS', alarms, flush=True)
-sh('git -C /repo worktree remove --force %s' % wt)
+if wt != '-': sh('git -C /repo worktree remove --force %s' % wt)
